@@ -1,5 +1,5 @@
 (** Pins/C17.v — the statements of the C17 theorems, pinned. *)
-From PdfV Require Import Base.Prelude Gen.Generated XRef.Model XRef.Spec XRef.HeaderProofs XRef.FrontProofs Properties.C17.
+From PdfV Require Import Base.Prelude Gen.Generated XRef.Model XRef.Spec XRef.HeaderProofs XRef.FrontProofs XRef.LexShift XRef.At XRef.ParseShift XRef.PrefixProofs XRef.AtProofs Syn.Prim Syn.Parser Properties.C17.
 Set Warnings "-notation-overridden".   (* also ends the import list for the dependency scanner of tools/vplib *)
 
 Check C17_marker_first_occurrence : forall pat p s, pat <> [] -> no_border pat = true ->
@@ -19,8 +19,8 @@ Check C17_resolve_invariant : forall (value : Type) (obj_at : bytes -> N -> res 
     (member : bytes -> value -> N -> res value) (shift : N -> value -> value) (p f : bytes),
   (forall pos, obj_at (p ++ f) (lenN p + pos) = rmap (shift (lenN p)) (obj_at f pos)) ->
   (forall v i, member (p ++ f) (shift (lenN p) v) i = rmap (shift (lenN p)) (member f v i)) ->
-  lenN (p ++ f) < usize_max -> lenN p + lenN xr_header <= xr_header_window ->
-  forall t, offsets_small p t -> forall fuel id,
+  lenN (p ++ f) < usize_max ->
+  forall t fuel id,
   resolve_ref value obj_at member fuel (p ++ f) (lenN p) t id
   = rmap (shift (lenN p)) (resolve_ref value obj_at member fuel f 0 t id).
 Check C17_scan_invariant : forall (value : Type) (scan_slice : bytes -> bytes -> N -> list (res value))
@@ -29,4 +29,47 @@ Check C17_scan_invariant : forall (value : Type) (scan_slice : bytes -> bytes ->
   lenN (p ++ f) < usize_max -> lenN p + lenN xr_header <= xr_header_window ->
   forall items, scan value scan_slice f 0 = Ok items ->
   scan value scan_slice (p ++ f) (lenN p) = Ok (map (rmap (shift (lenN p))) items).
-Check C17_full_statement_refuted : ~ C17_full_statement.
+Check C17_full_statement_proved : C17_full_statement.
+Check C17_full_statement_proved : forall (value : Type) (obj_at : bytes -> N -> res value) (member : bytes -> value -> N -> res value)
+    (shift : N -> value -> value) (p f : bytes),
+  (forall pos, obj_at (p ++ f) (lenN p + pos) = rmap (shift (lenN p)) (obj_at f pos)) ->
+  (forall v i, member (p ++ f) (shift (lenN p) v) i = rmap (shift (lenN p)) (member f v i)) ->
+  lenN (p ++ f) < usize_max ->
+  forall t fuel id,
+  resolve_ref value obj_at member fuel (p ++ f) (lenN p) t id
+  = rmap (shift (lenN p)) (resolve_ref value obj_at member fuel f 0 t id).
+Check C17_resolve_no_panic : forall (value : Type) (obj_at : bytes -> N -> res value) (member : bytes -> value -> N -> res value),
+  (forall fl pos, no_panic (obj_at fl pos) \/ obj_at fl pos = OutOfFuel) ->
+  (forall fl v i, no_panic (member fl v i) \/ member fl v i = OutOfFuel) ->
+  forall fuel file start t id,
+  match resolve_ref value obj_at member fuel file start t id with Panic _ => False | _ => True end.
+Check C17_lexer_position : forall d s, next_word (shift_lx d s) = rmap (shift_word d) (next_word s).
+Check C17_parser_position : forall d fuel R cx flags depth s,
+  parse_fuel fuel R cx flags depth (shift_lx d s) = rmap (shift_pv d) (parse_fuel fuel R cx flags depth s).
+Check C17_xref_at_prefix : forall (R : resolver) (tid : dict -> N) (p f : bytes),
+  (forall e, tid (shift_dict (lenN p) e) = tid e) ->
+  forall pos, xref_at_tables R tid (p ++ f) (lenN p + pos) = xref_at_tables R tid f pos.
+Check C17_obj_at_prefix : forall (R : resolver) (p f : bytes) allow flags pos,
+  obj_at_parse R allow flags (p ++ f) (lenN p + pos) = rmap (shift_prim (lenN p)) (obj_at_parse R allow flags f pos).
+Check C17_tables_invariant : forall (R : resolver) (tid : dict -> N) allow flags (p f : bytes),
+  (forall e, tid (shift_dict (lenN p) e) = tid e) ->
+  lenN (p ++ f) < usize_max ->
+  starts_with xr_header f = true -> find_sub xr_header p = None -> lenN p + lenN xr_header <= xr_header_window ->
+  (forall s t i, load (xref_at_tables R tid) f = Ok (s, t, i) -> s = 0 /\ load (xref_at_tables R tid) (p ++ f) = Ok (lenN p, t, i)) /\
+  (forall t fuel id,
+     resolve_ref prim (obj_at_parse R allow flags) (fun _ _ _ => Err E_OTHER) fuel (p ++ f) (lenN p) t id
+     = rmap (shift_prim (lenN p)) (resolve_ref prim (obj_at_parse R allow flags) (fun _ _ _ => Err E_OTHER) fuel f 0 t id)).
+Check C17_resolve_latest_prefixed : forall R tid allow (p file : bytes) (h : history) secss q0 secs0 d0 older size,
+  (forall e, tid (shift_dict (lenN p) e) = tid e) ->
+  find_sub xr_header p = None -> lenN p + lenN xr_header <= xr_header_window -> lenN (p ++ file) < usize_max ->
+  Forall2 represents secss h -> wf_history h ->
+  map snd ((q0, secs0) :: older) = rev secss ->
+  starts_with xr_header file = true -> startxref_at file q0 ->
+  section_at file q0 secs0 d0 -> t_size (tinfo_of tid d0) = Some size -> size <= xr_max_id ->
+  chain_at tid file 0 (t_prev (tinfo_of tid d0)) older -> NoDup (map fst older) ->
+  (forall n g pos, latest h n = Some (Direct g pos) -> exists v, object_at file pos n g v) ->
+  (forall n s i, latest h n <> Some (Compressed s i)) ->
+  exists t, load (xref_at_tables R tid) (p ++ file) = Ok (lenN p, t, tid d0) /\
+    forall n fuel, n < size ->
+      stored_shifted (lenN p) file n (latest h n)
+        (resolve_ref prim (obj_at_parse R allow F_ANY) (fun _ _ _ => Err E_OTHER) (S fuel) (p ++ file) (lenN p) t n).
